@@ -876,7 +876,7 @@ def resolve_local_call(fn, call):
         # reference tree does not have (introduced by a reorganisation)
         tgt = m.imports.get(f.id)
         if tgt and tgt.startswith(PKG + ".") and \
-                _is_new_helper(tgt.rsplit(".", 1)[1]):
+                _is_new_helper(tgt.rsplit(".", 1)[1], tgt.rsplit(".", 1)[0]):
             modname, fname = tgt.rsplit(".", 1)
             om = m.repo.modules.get(modname)
             if om is not None and fname in om.functions:
@@ -888,7 +888,7 @@ def resolve_local_call(fn, call):
         # <module alias>.<new helper>(...)
         tgt = m.resolve(dotted(f) or "") or ""
         if tgt.startswith(PKG + ".") and "." in tgt and \
-                _is_new_helper(f.attr):
+                _is_new_helper(f.attr, tgt.rsplit(".", 1)[0]):
             modname, fname = tgt.rsplit(".", 1)
             om = m.repo.modules.get(modname)
             if om is not None and fname in om.functions and \
@@ -901,8 +901,9 @@ def resolve_local_call(fn, call):
 _VOCAB = None
 
 
-def _is_new_helper(name):
-    """Private, or not a name of the reference tree (ngslint/vocab.json)."""
+def _is_new_helper(name, modname=None):
+    """Private, or not a module-level name of the reference tree
+    (ngslint/vocab.json: module -> names)."""
     global _VOCAB
     if name.startswith("_"):
         return True
@@ -910,11 +911,15 @@ def _is_new_helper(name):
         try:
             with open(os.path.join(os.path.dirname(__file__),
                                    "vocab.json")) as fh:
-                _VOCAB = set(json.load(fh))
-        except OSError:
-            _VOCAB = set()
+                _VOCAB = {k: set(v) for k, v in json.load(fh).items()}
+        except (OSError, ValueError, AttributeError):
+            _VOCAB = {}
             return False
-    return bool(_VOCAB) and name not in _VOCAB
+    if not _VOCAB:
+        return False
+    if modname is not None:
+        return modname not in _VOCAB or name not in _VOCAB[modname]
+    return not any(name in v for v in _VOCAB.values())
 
 
 def nodes_passing(fn, pred, depth=2):
@@ -1660,3 +1665,28 @@ def specialise(h, call, bound=False):
     view = Function(h.module, h.qualname, node, cls=h.cls, parent=h.parent)
     view.inlined_from = h
     return view
+
+
+def is_new_module(modname):
+    """The reference tree (ngslint/vocab.json) has no module of that name."""
+    _is_new_helper("x", modname)        # loads the vocabulary
+    return bool(_VOCAB) and modname not in _VOCAB
+
+
+def opens_file(fn, call, depth=0):
+    """The call evaluates to a freshly opened file object: open / os.fdopen /
+    Path.open / gzip.open, or a helper of the package every return of which
+    is such a call."""
+    nm = (call_name(call) or "")
+    leaf = nm.split(".")[-1]
+    if leaf in ("open", "fdopen") or nm in ("gzip.open", "io.open"):
+        return True
+    if depth >= 2:
+        return False
+    h = resolve_local_call(fn, call)
+    if h is None or h is fn:
+        return False
+    rets = [r for r in stmts_of(h.node)
+            if isinstance(r, ast.Return) and r.value is not None]
+    return bool(rets) and all(isinstance(r.value, ast.Call) and
+                              opens_file(h, r.value, depth + 1) for r in rets)
